@@ -362,6 +362,44 @@ Proof.
     destruct (keep_bound b); [constructor; assumption|exact IH].
 Qed.
 
+(* converse direction: with all static bounds >= 1 every point y of the canonical box is the image of a point
+   of the original box (`expand`: 0 at the dropped coordinates), so canonicalize is a bijection of the boxes
+   that keeps the accessed element.  A bound 0 is dropped like a bound 1 although its box is empty:
+   ap_canonicalize_zero_bound_not_onto. *)
+Fixpoint expand (mask : list bool) (y : vec) : vec :=
+  match mask with
+  | [] => []
+  | true :: ms => match y with v :: ys => v :: expand ms ys | [] => 0 :: expand ms [] end
+  | false :: ms => 0 :: expand ms y
+  end.
+
+Definition pos_bounds (bounds : list (option Z)) : Prop :=
+  Forall (fun b => match b with Some v => 1 <= v | None => True end) bounds.
+
+Lemma expand_in_box bounds : pos_bounds bounds -> forall y,
+  in_box (select (map keep_bound bounds) bounds) y ->
+  in_box bounds (expand (map keep_bound bounds) y) /\ select (map keep_bound bounds) (expand (map keep_bound bounds) y) = y.
+Proof.
+  unfold pos_bounds, in_box. induction 1 as [|b bs Hb _ IH]; intros y Hy; cbn [map select expand] in *.
+  - inversion Hy; subst. split; [constructor|reflexivity].
+  - destruct (keep_bound b) eqn:Hk; cbn [select] in *.
+    + inversion Hy as [|? v ? ys Hv Hrest]; subst. destruct (IH ys Hrest) as [H1 H2].
+      split; [constructor; assumption|]. cbn [select]. rewrite H2. reflexivity.
+    + destruct (IH y Hy) as [H1 H2]. split; [|exact H2]. constructor; [|exact H1].
+      destruct b as [v|]; cbn [keep_bound] in Hk; [|discriminate]. split; lia.
+Qed.
+
+Theorem ap_canonicalize_onto p y :
+  wf_ap p -> pos_bounds (ap_bounds p) -> in_box (ap_bounds (ap_canonicalize p)) y ->
+  let x := expand (map keep_bound (ap_bounds p)) y in
+  in_box (ap_bounds p) x /\ select (map keep_bound (ap_bounds p)) x = y
+  /\ at_eval (ap_pattern p) x = at_eval (ap_pattern (ap_canonicalize p)) y.
+Proof.
+  intros Hw Hp Hy x. destruct (expand_in_box _ Hp y Hy) as [H1 H2]. fold x in H1, H2.
+  split; [exact H1|]. split; [exact H2|].
+  destruct (ap_canonicalize_eval p x Hw H1) as [He _]. rewrite H2 in He. symmetry. exact He.
+Qed.
+
 Lemma select_all_true {A} (l : list A) : select (repeat true (length l)) l = l.
 Proof. induction l as [|a l IH]; cbn [length repeat select]; [reflexivity|]. rewrite IH. reflexivity. Qed.
 
